@@ -2,6 +2,7 @@ package zzverif
 
 import (
 	"fmt"
+	"runtime"
 	"sync"
 	"time"
 )
@@ -28,8 +29,27 @@ var (
 	ncur     = map[int64]*nthread{}
 )
 
+// freeRun: the threads are released together and scheduled by the Go runtime (second
+// phase of the replay of a schedule counterexample whose interleaving lies between yield
+// points the native scheduler cannot control, e.g. inside sso's own lock acquisitions).
+var (
+	freeRun   bool
+	freeStart chan struct{}
+	freeWG    sync.WaitGroup
+)
+
 // Go starts a harness thread.
 func Go(name string, f func()) {
+	if freeRun {
+		freeWG.Add(1)
+		start := freeStart
+		go func() {
+			defer freeWG.Done()
+			<-start
+			f()
+		}()
+		return
+	}
 	t := &nthread{name: name, release: make(chan struct{}), parked: make(chan struct{}, 1)}
 	nmu.Lock()
 	nthreads = append(nthreads, t)
@@ -58,6 +78,10 @@ func (t *nthread) park() {
 
 // Yield is a scheduling point inside harness callbacks.
 func Yield() {
+	if freeRun {
+		runtime.Gosched()
+		return
+	}
 	if t := getCur(); t != nil {
 		t.park()
 	}
@@ -70,6 +94,17 @@ func ThreadName(name string) {}
 // "done", "deadlock" or "budget".
 func RunSchedule(budget int) string {
 	load()
+	if freeRun {
+		close(freeStart)
+		fin := make(chan struct{})
+		go func() { freeWG.Wait(); close(fin) }()
+		select {
+		case <-fin:
+			return "done"
+		case <-time.After(300 * time.Millisecond):
+			return "budget" // threads that wait for ticks or for each other never finish
+		}
+	}
 	// wait until every thread reached its first park
 	for _, t := range snapshot() {
 		<-t.parked
@@ -156,4 +191,11 @@ func setCur(t *nthread) { nmu.Lock(); ncur[goid()] = t; nmu.Unlock() }
 func getCur() *nthread  { nmu.Lock(); defer nmu.Unlock(); return ncur[goid()] }
 
 // ResetSchedule forgets threads of an earlier harness run.
-func ResetSchedule() { nmu.Lock(); nthreads = nil; ncur = map[int64]*nthread{}; nmu.Unlock() }
+func ResetSchedule() {
+	nmu.Lock()
+	nthreads = nil
+	ncur = map[int64]*nthread{}
+	nmu.Unlock()
+	freeStart = make(chan struct{})
+	freeWG = sync.WaitGroup{}
+}
